@@ -109,8 +109,20 @@ Section C10.
   Theorem C10_only_valid_indices_partial : halton < nsam -> forall sigma, valid AS nsam (reach sigma) /\ valid AS nsam (reach_old sigma).
   Proof. intros H sigma. split; [exact (valid_every_schedule_new AS policy learn nsam halton loss H sessions a0 sigma)
                                 | exact (valid_every_schedule_old AS policy learn nsam halton loss H sessions a0 sigma)]. Qed.
+
+  (* ---- a rejected request (start_session while a session runs, end_session outside a session: ValueError at the flag test)
+     changes nothing but the calibration thread's program counter, under both protocols: queues, flag, reference losses, agent
+     thread and state, logs are as before *)
+  Theorem C10_rejected_request_moves_nothing : forall rep (s s' : state AS),
+    (mpc s = MReadS /\ flag s = false) \/ (mpc s = MReadE /\ flag s = true) ->
+    m_step AS policy nsam halton loss rep s = Some s' ->
+    s' = set_mpc AS MErr s /\
+    aq s' = aq s /\ oq s' = oq s /\ flag s' = flag s /\ apc s' = apc s /\ cbl s' = cbl s /\ best s' = best s /\ ast s' = ast s /\
+    executed s' = executed s /\ learned s' = learned s /\ bidx s' = bidx s.
+  Proof. exact (rejected_request_full AS policy nsam halton loss). Qed.
 End C10.
 
+Print Assumptions C10_rejected_request_moves_nothing.
 Print Assumptions C10_reward_defined_nonneg_losses.
 Print Assumptions C10_reward_defined_nonzero_best.
 Print Assumptions C10_learn_once_per_executed.
